@@ -181,3 +181,43 @@ PROPS['C12'] = dict(
                  "assumed, supported by the concurrent duplicate count",
                  "uuid.New / base64.StdEncoding as modelled"],
 )
+
+_PACKED_RULE = ("packed suite: histories of 3..10 constructor / packer calls in one process with GOMAXPROCS(1) and GC off so that "
+                "pooled buffers and compressors really are reused; pools primed with dirty buffers and with compressors left "
+                "zero / closed / mid-member / with junk; every returned message or slice and every argument is snapshotted and "
+                "re-compared after every later call; compressed streams are decompressed by compress/gzip with Multistream(false) "
+                "and an exact-EOF check. packedconc: 8 goroutines x 200 packed/compressed messages built concurrently and "
+                "re-verified at the end. distinct = distinct (op,args); non-trivial = constructor / packer lines")
+_PACKED_SUITES = [dict(suite='packed', n=dict(quick=250, thorough=6000), shards=dict(quick=1, thorough=16), trivial=r'^(-|hist\.(HRESET|PRIME)\..*)$'),
+                  dict(suite='packedconc', n=dict(quick=3, thorough=40), shards=dict(quick=1, thorough=4), trivial=r'^-$')]
+
+PROPS['C03'] = dict(
+    lean_modules=['FluentVerif.Props.C03'],
+    theorems=['FV.C03_packed', 'FV.C03_compressed_fromBytes', 'FV.C03_compressed', 'FV.C03_history_independent',
+              'FV.unmarshalPackedF_marshal'],
+    suites=_PACKED_SUITES,
+    rule=_PACKED_RULE,
+    explanation="C03_packed: the stream is, for the specification parser, exactly the entries one after another, size = number of "
+                "entries, UnmarshalPacked returns the list; C03_compressed[_fromBytes]: for every prior state of the recycled "
+                "compressor the message carries one complete member that decompresses to the uncompressed variant's bytes / the "
+                "caller's bytes, with nothing after it, flagged gzip. Correspondence: functional results of the real "
+                "constructors equal the model on every history line; gzip members are checked with the standard library.",
+    assumptions=["gzip is an abstract codec (gunzipOne (member p ++ rest) = (p, rest)); gzip.Writer.Reset discards all prior state (stdlib)",
+                 "sync.Pool hands an object to one caller at a time (stdlib)"] + _CODEC_ASSUME[:1],
+)
+
+PROPS['C07'] = dict(
+    lean_modules=['FluentVerif.Props.C07'],
+    theorems=['FV.Heap.inv_step', 'FV.Heap.C07_stable', 'FV.Heap.C07_returned_unchanged', 'FV.Heap.C07_args_unchanged',
+              'FV.Heap.C07_legacy_witness'],
+    suites=_PACKED_SUITES,
+    rule=_PACKED_RULE,
+    explanation="Heap model with one owner per storage location (pooled / in flight for goroutine t / returned / argument); "
+                "C07_stable: for every schedule of get / write / return-a-copy / put steps of any number of goroutines and any "
+                "pool choices, every returned value and every argument still reads as at return / call. The model's claim that "
+                "results are copies and that writes go only to storage taken from a pool is tied behaviourally: snapshots of "
+                "every returned value and argument are re-compared after every later call under forced pool reuse, plus a "
+                "concurrent build-and-verify run.",
+    assumptions=["aliasing is visible to the tie only through behaviour (hence forced reuse and primed pools)",
+                 "Send paths: covered with the client model (sending one message never alters another)"],
+)
